@@ -146,6 +146,63 @@ Theorem C12_listeners_meet_oracle : forall t0 steps s lo,
 Proof. exact lsn_model_meets_oracle. Qed.
 Print Assumptions C12_listeners_meet_oracle.
 
+(* the consequence clause itself on listener histories of the model: a cookie handed out
+   at t (by a key exchange or in a response) under key id K - generated at some g with
+   g <= t <= g + 24 h - is honoured by every request up to t + 48 h, whatever happens in
+   between, and refused by every request later than g + 72 h *)
+Theorem C12_listeners_cookie_lifetime : forall t0 steps1 s1 lo1 st s2 t req ids K steps2 s3 lo2 t',
+  lmono t0 steps1 -> lsn_history t0 steps1 = Some (s1, lo1) -> llast t0 steps1 <= lstep_time st ->
+  lsn_step s1 st = Some (s2, LObs t req true ids) -> In K ids ->
+  lmono t steps2 -> lsn_run s2 steps2 = Some (s3, lo2) -> llast t steps2 <= t' ->
+  exists g, g <= t <= g + key_renewal /\
+    (t' <= t + two_days ->
+       forall s' tt rq ans ids', lsn_step s3 (LReq t' K) = Some (s', LObs tt rq ans ids') -> ans = true) /\
+    (g + key_validity < t' -> lsn_step s3 (LReq t' K) = Some (s3, LObs t' (Some K) false [])).
+Proof. exact lsn_cookie_lifetime. Qed.
+Print Assumptions C12_listeners_cookie_lifetime.
+
+(* soundness of the listener oracle, about the observations alone (no model): if C12_lsn_ok
+   accepts a history in which a cookie under key id K was handed out at t, then with
+   g = the first sighting of K: g <= t <= g + 24 h, every later request under K up to
+   t + 48 h was answered and every request under K later than g + 72 h was refused.
+   First sighting is the latest instant at which K can have been generated: any key table
+   consistent with the observations (every key generated no later than its id is first
+   seen) has generation times <= g, so the oracle never demands a refusal earlier, nor
+   freshness stricter, than the truth; with lazy rotation g is the generation time. *)
+Theorem C12_listener_oracle_sound : forall t0 l1 t req ids l2 K,
+  C12_lsn_ok t0 (l1 ++ LObs t req true ids :: l2) = true -> In K ids ->
+  exists g, g <= t <= g + key_renewal /\
+    forall t' ans ids', In (LObs t' (Some K) ans ids') l2 ->
+      (t' <= t + two_days -> ans = true) /\ (g + key_validity < t' -> ans = false).
+Proof. exact lsn_oracle_sound. Qed.
+Print Assumptions C12_listener_oracle_sound.
+
+(* the oracle of sequential histories also knows key 1 (made by NewProvider at t0), so that
+   a Get is never judged by the validity the returned key reports about itself alone: ids
+   >= 2 are first seen in a Current result, id 1 in this ghost observation *)
+Theorem C12_model_meets_oracle_with_key_one : forall t0 ops s bs,
+  mono t0 ops -> history t0 ops = Some (s, bs) -> C12_ok (BCur 0 t0 (key_one t0) :: bs) = true.
+Proof. exact model_meets_oracle_ghost. Qed.
+Print Assumptions C12_model_meets_oracle_with_key_one.
+
+(* the long-history oracle and Get: a key returned by any Get is the very key any Current
+   returned under that id (C12_long_unique covers the Current results among themselves) *)
+Theorem C12_long_get_unique : forall l g t id k' g' t' c, C12_long_ok l = true ->
+  In (BGet g t id (Some k')) l -> In (BCur g' t' c) l -> k_id c = k_id k' -> c = k'.
+Proof. exact long_get_unique. Qed.
+Print Assumptions C12_long_get_unique.
+
+(* recorded observation: the cookie carries the key id in 16 bits and the listeners call
+   Get(int(uint16 id)) (server_ip.go, server_scion.go): a cookie under key 65536 or later
+   would not be usable.  Unreachable: in every history shorter than 65535 days all ids
+   ever generated are below 2^16 *)
+Theorem C12_ids_fit_16_bits : forall t0 ops s bs,
+  mono t0 ops -> history t0 ops = Some (s, bs) ->
+  last_time t0 ops - t0 < 65535 * (key_renewal + 1) ->
+  forall k, In k (glog s) -> 1 <= k_id k < 65536.
+Proof. exact ids_fit_16. Qed.
+Print Assumptions C12_ids_fit_16_bits.
+
 (* the hypotheses are satisfiable and the statements not vacuous: a history with
    a rotation, an expiry and a late lookup *)
 Example C12_example :
